@@ -91,11 +91,27 @@ def _kf01(case, impl_res, bad):
     return bool(absent) and all(g in absent for g, _, _ in bad)
 
 
+@pred("KF10-nanminmax-mincount0-allnan-group-filled")
+def _kf10(case, impl_res, bad):
+    if case.get("func") not in ("nanmin", "nanmax") or case.get("min_count") != 0 or case.get("fill_value") is None:
+        return False
+    for g, got, want in bad:
+        mem = _group_members(case, g)
+        if not mem or not all(isinstance(v, float) and math.isnan(v) for v in mem):
+            return False
+    return True
+
+
 def in_known_cell(case):
     """cells for which the Coq model is not evaluated because a listed finding changes the code's behaviour there"""
     if active("KF01-explicit-mincount0-absent-label") and case.get("min_count") == 0 and case.get("fill_value") is not None \
             and case.get("expected") and _absent_labels(case):
         return True
+    if active("KF10-nanminmax-mincount0-allnan-group-filled") and case.get("func") in ("nanmin", "nanmax") and case.get("min_count") == 0 \
+            and case.get("fill_value") is not None:
+        labs = {I.unf(x) for x in case["labels"] if x != "nan"}
+        if any(all(isinstance(v, float) and math.isnan(v) for v in _group_members(case, g)) for g in labs):
+            return True
     return False
 
 
@@ -268,7 +284,15 @@ def _probe_kf09():
     return bool(np.isnat(r[1]))
 
 
-PROBES = {"KF09": _probe_kf09, "KF01": _probe_kf01, "KF02": _probe_kf02, "KF03": _probe_kf03, "KF04": _probe_kf04, "KF05": _probe_kf05,
+def _probe_kf10():
+    import numpy as np
+    import flox
+    r = np.asarray(flox.groupby_reduce(np.array([1.0, np.nan]), np.array([0, 3]), func="nanmax", expected_groups=np.array([0, 3]),
+                                       fill_value=-7, min_count=0)[0], dtype=float)
+    return not np.isnan(r[1])
+
+
+PROBES = {"KF10": _probe_kf10, "KF09": _probe_kf09, "KF01": _probe_kf01, "KF02": _probe_kf02, "KF03": _probe_kf03, "KF04": _probe_kf04, "KF05": _probe_kf05,
           "KF06": _probe_kf06, "KF07": _probe_kf07, "KF08": _probe_kf08}
 
 
